@@ -26,7 +26,14 @@ TrajCases == [kind : {"traj"}, fmt : Formats, natoms : 1..MaxAtoms, nframes : 1.
 TemplCases == [kind : {"template"}, nkeys : 0..3, duplicate : BOOLEAN, commented : BOOLEAN,
                set_existing : SUBSET (1..3), set_new : 0..2]
 
-WellFormed(x) == IF x.kind = "traj"
+(* CP2K inputs are section trees; an edit sets keywords of MOTION->MD, may add a section that does   *)
+(* not exist yet and may remove MOTION->PRINT; results are compared as trees (sibling order is      *)
+(* immaterial)                                                                                       *)
+Cp2kKeys == {"STEPS", "TIMESTEP", "TEMPERATURE"}
+Cp2kCases == [kind : {"cp2k"}, present : SUBSET Cp2kKeys, update : SUBSET Cp2kKeys, has_print : BOOLEAN,
+              add_section : BOOLEAN, remove_print : BOOLEAN]
+
+WellFormed(x) == IF x.kind = "cp2k" THEN TRUE ELSE IF x.kind = "traj"
                  THEN /\ x.k < x.nframes
                       /\ (x.fmt = "lammpstrj" => x.natoms >= 2)            \* its reader relies on 2-D tables
                       /\ (x.op = "append" => x.nframes >= 2)
@@ -36,9 +43,10 @@ WellFormed(x) == IF x.kind = "traj"
                  ELSE \A i \in x.set_existing : i <= x.nkeys
 
 Init == /\ done = FALSE /\ law = "?"
-        /\ c \in {x \in TrajCases \cup TemplCases : WellFormed(x)}
+        /\ c \in {x \in TrajCases \cup TemplCases \cup Cp2kCases : WellFormed(x)}
 Apply == /\ ~done /\ done' = TRUE /\ UNCHANGED c
-         /\ law' = IF c.kind = "template" THEN "edit-exactly-and-idempotent"
+         /\ law' = IF c.kind = "cp2k" THEN "tree(edit(T)) = edit(tree(T)), idempotent"
+                   ELSE IF c.kind = "template" THEN "edit-exactly-and-idempotent"
                    ELSE CASE c.op = "roundtrip" -> "read(write(F)) = F"
                           [] c.op = "extract"   -> "extract(k)(F) = <<F[k]>>"
                           [] c.op = "reverse"   -> "vel negated, nothing else"
